@@ -413,6 +413,8 @@ class DiscriminatedUnionUnpackerBuilder(AbstractUnpackerBuilder):
                     )
             with lines.indent("except (KeyError, AttributeError):"):
                 lines.append(f"variants_map = {variants_map}")
+                if not spec.builder.is_nailed:
+                    lines.append("built_variants = {}")
                 with lines.indent(f"for variant in {variants}:"):
                     if discriminator.variant_tagger_fn is not None:
                         lines.append(f"variant_tags = {variant_tagger_expr}")
@@ -436,7 +438,7 @@ class DiscriminatedUnionUnpackerBuilder(AbstractUnpackerBuilder):
                         )
                     else:
                         lines.append(
-                            f"return {spec.attrs_registry_name}["
+                            "return built_variants["
                             "variants_map[discriminator]]"
                             f".{variant_method_call}"
                         )
@@ -514,17 +516,28 @@ class DiscriminatedUnionUnpackerBuilder(AbstractUnpackerBuilder):
         else:
             spec.builder.ensure_object_imported(AttrsHolder)
             attrs = f"attrs_{random_hex()}"
-            lines.append(f"{attrs} = AttrsHolder('{attrs}')")
-            lines.append(f"{spec.attrs_registry_name}[variant] = {attrs}")
-            lines.append(
-                "CodeBuilder(variant, "
-                "dialect=_dialect, "
-                f"format_name={repr(spec.builder.format_name)}, "
-                "default_dialect=_default_dialect,"
-                f"attrs={attrs},"
-                f"attrs_registry={spec.attrs_registry_name})"
-                ".add_unpack_method()"
-            )
+            # A holder that already has the variant's unpacker is kept: another
+            # thread may be using it right now. A new one is published before
+            # it is filled (a variant may refer to itself), so this call only
+            # trusts the holders it has seen complete.
+            lines.append(f"{attrs} = {spec.attrs_registry_name}.get(variant)")
+            with lines.indent(
+                f"if {attrs} is None "
+                f"or not hasattr({attrs}, '{variant_method_name}'):"
+            ):
+                lines.append(f"{attrs} = AttrsHolder('{attrs}')")
+                lines.append(f"{spec.attrs_registry_name}[variant] = {attrs}")
+                lines.append(
+                    "CodeBuilder(variant, "
+                    "dialect=_dialect, "
+                    f"format_name={repr(spec.builder.format_name)}, "
+                    "default_dialect=_default_dialect,"
+                    f"attrs={attrs},"
+                    f"attrs_registry={spec.attrs_registry_name})"
+                    ".add_unpack_method()"
+                )
+            if self.discriminator.field:
+                lines.append(f"built_variants[variant] = {attrs}")
             if not self.discriminator.field:
                 with lines.indent("try:"):
                     lines.append(f"return {attrs}.{variant_method_call}")
